@@ -85,6 +85,9 @@ def _prepare24(H, flags):
                 fs_.exists[p.key] = SV(e)
                 ex.append(e)
             H.input(folder0_exists=ex[0], folder1_exists=ex[1])
+            # the same converter object may have been run before (the usual `if conv.process() == 0: conv.process(overwrite=True)`): whatever an
+            # earlier call left in the flag must not decide this one
+            conv.attrs["already_exists"] = SV(z3.Bool("flag_left_by_an_earlier_call"))
             info = run_function(it, neuropixel.NP2Converter._prepare_files_NP24, [conv], {"overwrite": overwrite})
             tag = f"ow{overwrite}"
             created = [op for op in fs_.log if op[0] in ("open_w", "mkdir")]
@@ -367,9 +370,18 @@ def h_epilogue(H):
         it.session.contracts[neuropixel.NP2Converter._prepare_files_NP24] = prep
         r = run_function(it, neuropixel.NP2Converter._process_NP24, [conv], {"overwrite": False})
         it.ctx.oblige("already_exists.returns_0_untouched", z3.BoolVal(r == 0 and not fs_.log), "post", "a repeated run reports that it did nothing")
-        conv.attrs["np_version"] = "3B2"
-        r = run_function(it, neuropixel.NP2Converter.process, [conv], {"overwrite": False})
-        it.ctx.oblige("not_np2.returns_minus1_untouched", z3.BoolVal(r == -1 and not fs_.log), "post")
+        for ver, fields in (("3B2", {"imDatPrb_type": 0.0, "imDatPrb_port": 1.0, "imDatPrb_slot": 2.0}), ("3B1", {"imDatPrb_type": 0.0}), ("3A", {"typeEnabled": 1.0}), ("NPultra", {"imDatPrb_type": 1100.0})):
+            conv.attrs["np_version"] = ver
+            conv.attrs["sr"] = SObj(spikeglx.Reader, meta=dict({"typeThis": "imec"}, **fields), file_bin=ap, _raw=None)
+            called = []
+            it.session.contracts[neuropixel.NP2Converter._process_NP21] = lambda it_, a, k: called.append("np21") or 1
+            it.session.contracts[neuropixel.NP2Converter._process_NP24] = lambda it_, a, k: called.append("np24") or 1
+            for ow in (False, True):
+                r = run_function(it, neuropixel.NP2Converter.process, [conv], {"overwrite": ow})
+                it.ctx.oblige(f"not_np2.returns_minus1_untouched.{ver}.ow{ow}", z3.BoolVal(r == -1 and not fs_.log and not called), "post",
+                              "a probe that is neither NP2.1 nor NP2.4 (NP1 generations, NP Ultra) is refused: nothing is extracted, compressed or removed")
+            it.session.contracts.pop(neuropixel.NP2Converter._process_NP21, None)
+            it.session.contracts.pop(neuropixel.NP2Converter._process_NP24, None)
         # check_metadata: already-split detection
         for key, want in (({"NP2.4_shank": 2}, True), ({"NP2.4_shank": 0}, True), ({}, False)):
             c2 = SObj(neuropixel.NP2Converter, sr=SObj(spikeglx.Reader, meta=dict(key)), np_version="NP2.4")
@@ -504,7 +516,12 @@ def h_prepare21(H):
             e1, e2 = z3.Bools("lf_bin_exists lf_cbin_exists")
             fs_.exists[lf.key] = SV(e1)
             fs_.exists[lf.with_suffix(".cbin").key] = SV(e2)
+            conv.attrs["already_exists"] = SV(z3.Bool("flag_left_by_an_earlier_call"))          # the same object may have been run before
             info = run_function(it, neuropixel.NP2Converter._prepare_files_NP21, [conv], {"overwrite": overwrite, "assert_shanks": False})
+            if overwrite:
+                ae_ = conv.already_exists
+                it.ctx.oblige("np21.forced_run_is_not_reported_as_existing", z3.Not(term(ae_)) if not isinstance(ae_, bool) else z3.BoolVal(not ae_), "post",
+                              "a forced run never reports 'already exists' (the caller would return without extracting, after the LF file was truncated)")
             created = [op for op in fs_.log if op[0] in ("open_w", "open_a", "mkdir")]
             ae = conv.already_exists
             ae_t = term(ae) if not isinstance(ae, bool) else z3.BoolVal(ae)
@@ -554,7 +571,8 @@ def _mk(kind, ns=3000):
     rng = np.random.default_rng(1)
     D = rng.integers(-2000, 2000, size=(ns, 385), dtype=np.int16)
     D.tofile(ap)
-    meta = os.path.join(FIX, {"NP2.4": "NP24_meta", "NP2.1": "NP21_meta", "NP1": "NP1_meta"}[kind], "_spikeglx_ephysData_g0_t0.imec0.ap.meta")
+    meta = os.path.join(FIX, {"NP2.4": "NP24_meta", "NP2.1": "NP21_meta", "NP1": "NP1_meta"}[kind], "_spikeglx_ephysData_g0_t0.imec0.ap.meta") if kind != "NPultra" \
+        else os.path.join(os.path.dirname(FIX), "sampleNPultra_g0_t0.imec0.ap.meta")
     with open(meta) as f, open(ap[:-3] + "meta", "w") as g:
         for line in f:
             if line.startswith("fileSizeBytes"):
@@ -610,7 +628,7 @@ def native_failed_check_then_delete(*_a):
 
 @bounded(PROPERTY, "native_histories", bound="real files (3000 samples, window 1200): NP2.4 x option triples {post_check, compress, delete_original} sampled (quick 4, thorough all 8) x histories "
          "[run], [run, run], [run, run(overwrite)], [fresh run(overwrite)], [run interrupted during compression, run(overwrite)], [run with a corrupted shank file + delete_original], [failed verification, then delete_NP24() on the same object]; NP2.1 x {run, run run, run(overwrite)}; "
-         "NP1; the converter pointed at an already split shank (both overwrite values); a 3007-sample recording with post_check + delete_original",
+         "NP1 and NP Ultra (refused, tree unchanged); one object finding earlier output then forced; the converter pointed at an already split shank (both overwrite values); a 3007-sample recording with post_check + delete_original",
          clause="original recoverable after every history; repeated run is a no-op reporting 0; forced re-run ends with a complete set")
 def b_native(B):
     import itertools
@@ -699,6 +717,31 @@ def b_native(B):
         B.case("same_object_forced_rerun", bool(okf) and open(ap, "rb").read() == orig, detail=det)
     finally:
         shutil.rmtree(d, ignore_errors=True)
+    # the usual idiom on one object: a run that finds earlier output (returns 0), then the same object forced
+    for kind in ("NP2.4", "NP2.1"):
+        d, ap, orig = _mk(kind)
+        try:
+            c0 = neuropixel.NP2Converter(ap, post_check=False, compress=False, delete_original=False)
+            c0.init_params(nwindow=1200)
+            c0.process()
+            c0.sr.close()
+            conv = neuropixel.NP2Converter(ap, post_check=False, compress=False, delete_original=False)
+            conv.init_params(nwindow=1200)
+            r1 = conv.process()
+            r2 = conv.process(overwrite=True)
+            if kind == "NP2.4":
+                sizes = {sh: os.path.getsize(inf["ap_file"]) for sh, inf in conv.shank_info.items()}
+                okr = (r1, r2) == (0, 1) and all(v == 3000 * len(conv.shank_info[sh]["chns"]) * 2 for sh, v in sizes.items())
+            else:
+                lf = ap.replace(".ap.", ".lf.")
+                sizes = {"lf": os.path.getsize(lf) if os.path.exists(lf) else -1}
+                okr = (r1, r2) == (0, 1) and sizes["lf"] == 250 * 385 * 2
+            conv.sr.close()
+            B.case(("found_existing_then_forced_on_the_same_object", kind), bool(okr), detail={"returns": [r1, r2], "output_sizes": sizes}, inputs={"kind": "same_object_0_then_forced", "probe": kind})
+        except Exception as e:
+            B.case(("found_existing_then_forced_on_the_same_object", kind), False, detail={"raised": repr(e)[:160]})
+        finally:
+            shutil.rmtree(d, ignore_errors=True)
     # a verification that failed, followed by an explicit delete_NP24() on the same converter object: the original must survive
     r = native_failed_check_then_delete()
     B.case("failed_check_then_delete", not r["failed"], detail=r)
@@ -754,9 +797,10 @@ def b_native(B):
         B.case("odd_length_deleted_only_when_complete", r == 1 and (full or os.path.exists(ap)), detail={"returned": r, "samples_per_shank_file": lens, "original_exists": os.path.exists(ap)}, inputs={"kind": "odd_length"})
     finally:
         shutil.rmtree(d, ignore_errors=True)
-    for kind in ("NP2.1", "NP1"):
+    for kind in ("NP2.1", "NP1", "NPultra"):
         for hist in (["run"], ["run", "run"], ["run", "ow"]):
             d, ap, orig = _mk(kind)
+            tree0 = _tree(d)
             try:
                 rets = []
                 cur = ap
@@ -766,8 +810,8 @@ def b_native(B):
                     rets.append(conv.process(overwrite=(step == "ow")))
                     cur = str(conv.ap_file)
                     conv.sr.close()
-                if kind == "NP1":
-                    ok = all(r == -1 for r in rets) and open(ap, "rb").read() == orig
+                if kind in ("NP1", "NPultra"):
+                    ok = all(r == -1 for r in rets) and open(ap, "rb").read() == orig and _tree(d) == tree0
                 else:
                     cb = ap[:-3] + "cbin"
                     ok = os.path.exists(cb) and not os.path.exists(ap)
